@@ -185,6 +185,17 @@ long vrt_param(const char *name, long dflt)
 	return dflt;
 }
 
+void vrt_sample(const char *fmt, ...)
+{
+	va_list ap;
+
+	if (!res)
+		return;
+	va_start(ap, fmt);
+	vsnprintf(res->sample, sizeof(res->sample), fmt, ap);
+	va_end(ap);
+}
+
 void vrt_outcome(unsigned long v) { res->outcome = vrt_mix(res->outcome, v); }
 void vrt_witness(int id) { if (res && id >= 0 && id < NWIT) res->witness[id]++; }
 unsigned long vrt_now(void) { return g_step; }
